@@ -65,10 +65,13 @@ static void n_case(uint64_t idx, void *ctx)
         mc_child_reset();
         libast_debug_level = (unsigned) level; libast_set_silent(silent ? TRUE : FALSE);
         if (level >= 1) { g_again = c; mc_exit_hook = again_at_exit; }
-        int conf = !strncmp(c->func, "spifconf_", 9);
+        int conf = !strncmp(c->func, "spifconf_", 9), opt = !strncmp(c->func, "spifopt_", 8);
+        static spifopt_settings_t opt0;
         if (conf) conf_before();
+        if (opt) { SPIFOPT_FLAGS_SET(SPIFOPT_SETTING_PREPARSE); SPIFOPT_ALLOWBAD_SET(3); memcpy(&opt0, &spifopt_settings, sizeof opt0); }      /* the parser's settings as a two-pass client leaves them before its first pass */
         c->fn(&r);
         if (conf) r.aftermath = conf_after();
+        if (opt && memcmp(&opt0, &spifopt_settings, sizeof opt0)) r.aftermath = 8;
         if (write(rp[1], &r, sizeof r) != sizeof r) _exit(9);
         _exit(0);
     }
@@ -91,7 +94,7 @@ static void n_case(uint64_t idx, void *ctx)
     } else if (WIFEXITED(st) && WEXITSTATUS(st) == 0 && got == (ssize_t) sizeof r && r.returned) {
         if (!r.ret_ok) FAIL(site, "model:failure-value", shape, "returned something other than the stated failure value %s", c->val);
         if (r.arg_changed) FAIL(site, "model:argument-changed", shape, "argument %d was modified by the failing call", r.arg_changed);
-        if (r.aftermath) FAIL(site, "model:effect", shape, "ordinary use of the configuration module after the refused call differs from use without it (step %d: 2 next context ID, 3 next builtin ID, 4 next file-state index, 5 context lookup and handler calls, 6 next context-state index, 7 the result of an earlier file lookup)", r.aftermath);
+        if (r.aftermath) FAIL(site, "model:effect", shape, "ordinary use of the module after the refused call differs from use without it (step %d: 2 next context ID, 3 next builtin ID, 4 next file-state index, 5 context lookup and handler calls, 6 next context-state index, 7 the result of an earlier file lookup, 8 the option parser's settings)", r.aftermath);
         if (r.alloc_delta) FAIL(site, "model:allocated", shape, "the failing call changed the heap by %ld bytes", r.alloc_delta);
     } else FAIL(site, "crash:exit", shape, "the call ended the process with status 0x%x", st);
     mc_nontrivial();
